@@ -325,17 +325,18 @@ def simtool(ctx):
     argv = ctx.argv
     ins, outs = [], []
     fail = False
-    i = 0
-    while i < len(argv):
-        if argv[i] == '--in':
-            ins.append(argv[i + 1])
-            i += 1
-        elif argv[i] == '--out':
-            outs.append(argv[i + 1])
-            i += 1
-        elif argv[i] == '--fail':
+    cur = None
+    for a in argv:
+        if a == '--in':
+            cur = ins
+        elif a == '--out':
+            cur = outs
+        elif a == '--arg':
+            cur = []
+        elif a == '--fail':
             fail = True
-        i += 1
+        elif cur is not None:
+            cur.append(a)
     h = hashlib.sha256()
     for f in ins:
         h.update(b'\4' + ctx.read(f))
